@@ -31,7 +31,7 @@ for p in props:
         replay_cmd_template="./check %s --replay {path}" % p["id"],
         engine="+".join(ename(g) for g in variants(p["id"])),
         level_claimed=dict(category="proof", text=c["text"], design_ref="DESIGN.md section 5, %s" % p["id"]),
-        level_note=c["note"] + ("; BOUNDED native post-checks on the real code (never counted as proved): " + ", ".join(sorted(set(x["script"] for x in posts[p["id"]]))) if p["id"] in posts else ""),
+        level_note=c["note"] + "; checked by engine variant(s) " + " + ".join(ename(g) for g in variants(p["id"])) + " (every one must pass; tools/groups.json, DESIGN 10.5)" + ("; BOUNDED native post-checks on the real code (never counted as proved): " + ", ".join(sorted(set(x["script"] for x in posts[p["id"]]))) if p["id"] in posts else ""),
         technique="contract-based deductive verification: sidecar contracts on the real functions, VCs generated from the /repo AST (pyvc) and discharged by z3/cvc5",
     ))
 m = dict(
